@@ -38,6 +38,7 @@ type c10Scenario struct {
 	Steps              []c10Step  `json:"steps"`
 	Seg                int        `json:"segmentation"`
 	LatencyNs          int64      `json:"latency_ns"`
+	ResumeDropFirst    bool       `json:"first_resumption_attempt_loses_its_connection,omitempty"` // with loss_and_resumption_at_the_end: the connection of the first attempt breaks while the answer to <resume/> is awaited
 	ResumeAtEnd        bool       `json:"loss_and_resumption_at_the_end,omitempty"` // the session is lost and resumed; <resumed/> repeats the last acknowledged h
 }
 
@@ -60,6 +61,7 @@ func runC10(e *Engine, g G, o RunOpt) RunInfo {
 		sc.AfterRefusedResume = g.Range("old-held", 1, 4)
 	}
 	sc.ResumeAtEnd = g.Pct("resume-at-end", 25)
+	sc.ResumeDropFirst = sc.ResumeAtEnd && g.Pct("resume-drop-first", 40)
 	ns := g.Range("nsteps", 2, 8)
 	for i := 0; i < ns; i++ {
 		switch g.Weighted("step", 5, 5, 1, 2, 1) {
@@ -502,8 +504,24 @@ func runC10(e *Engine, g G, o RunOpt) RunInfo {
 			s.Cli.CutErr = io.EOF
 			if !e.WaitUntilFor("lost-at-end", time.Minute, func() bool { return countState(s.W.Events, xmpp.StateDisconnected) > nd }) {
 				e.Sleep(time.Second)
+				if sc.ResumeDropFirst {
+					// the first attempt's connection breaks while the answer to <resume/> is awaited: the
+					// server has refused nothing, and nothing was acknowledged
+					dropScript := okScript
+					dropScript.Resume = ResumeClose
+					s.Srv.Scripts[len(s.Srv.Conns)] = dropScript
+					e.Call("Resume (connection breaks)", s.W.Client.Resume)
+					e.Sleep(time.Duration(sc.Client.ConnectTimeout+2) * time.Second)
+					for len(s.Srv.Scripts) <= len(s.Srv.Conns) {
+						s.Srv.Scripts = append(s.Srv.Scripts, okScript)
+					}
+					s.Srv.Scripts[len(s.Srv.Conns)] = okScript
+					e.Probe("c10.resumption_attempt_lost_its_connection")
+				}
 				nc := len(s.Srv.Conns)
 				err, _ := e.Call("Resume", s.W.Client.Resume)
+				// (C11 counts a connection closed in answer to <resume/> among the replies after which the
+				// state is discarded: whether the held stanzas survive such an attempt is not asserted here)
 				if err == nil && len(s.Srv.Conns) == nc+1 && s.Srv.Conns[nc].Established == "resumed" {
 					e.Sleep(time.Second)
 					got, _ := queue()
